@@ -510,6 +510,19 @@ pub fn run(ctx: &Ctx) -> Report {
         }
     }
     if build_name() == "k160s5" || !quick {
+        // proofs built by the C01 game prover (their commitments enter the transcript, so they cannot be reached
+        // by editing an honest proof): a composition table committed with three columns, with and without a
+        // solved composition pair, ...
+        for (desc, p) in crate::props::c01::prover_built_proofs(ctx) {
+            let r = verify(&p, "recursive");
+            rep.eval(&format!("prover-built:verify:{}", r.short()));
+            rep.nontrivial_case(&format!("prover-built|{}", desc));
+            if let Verdict::Panic(pn) = &r {
+                rep.violation(&format!("panic:verify:{}", pn.site()),
+                    &format!("verify panics at {}:{} ({}) - proof built by the game prover with moves: {}", pn.file, pn.line, pn.msg.chars().take(80).collect::<String>(), desc),
+                    json!({"kind": "prover-built", "moves": desc}));
+            }
+        }
         skeletons(&mut rep);
         exponent_boundaries(&mut rep);
     }
@@ -523,6 +536,12 @@ pub fn replay(ctx: &Ctx, case: &Value) -> super::ReplayResult {
         let p = skeleton(layout, case["log_trace"].as_u64().ok_or("log_trace")?, case["cells"].as_u64().unwrap_or(15)).ok_or("no skeleton")?;
         let v = verify(&p, layout);
         return Ok((matches!(v, Verdict::Panic(_)), format!("skeleton -> {}", v.class())));
+    }
+    if case["kind"].as_str() == Some("prover-built") {
+        let want = case["moves"].as_str().ok_or("moves")?;
+        let (_, p) = crate::props::c01::prover_built_proofs(ctx).into_iter().find(|(d, _)| d == want).ok_or("no such prover-built proof")?;
+        let r = verify(&p, "recursive");
+        return Ok((matches!(r, Verdict::Panic(_)), format!("verify -> {}", r.class())));
     }
     if case["kind"].as_str() == Some("redeclared") {
         let name = case["proof"].as_str().ok_or("proof")?;
